@@ -1,6 +1,6 @@
 NOT_YET = {}
 chk("C01",
-    "Exhaustive enumeration of all thread schedules (within a stated preemption bound) of 2-3 concurrent Get callers plus background builds on the real Failover/FailoverOf code, for every cell of the configuration x entry-state x builder-script table; client programs include a forced-refresh (SkipRead) Get, a reused key buffer and a caller that cancels its context while its build is running; a monitor inside the builder asserts at most one build per key in flight in every explored state.",
+    "Exhaustive enumeration of all thread schedules (within a stated preemption bound) of 2-3 concurrent Get callers plus background builds on the real Failover/FailoverOf code, for every cell of the configuration x entry-state x builder-script table; client programs include a forced-refresh (SkipRead) Get, a reused key buffer, a caller that cancels its context while its build is running, and builds that take longer than UpdateTTL of virtual time; a monitor inside the builder asserts at most one build per key in flight in every explored state.",
     "Trusted: Go toolchain, the shim packages (delegate to std primitives), vinst source rewriting, the harness builder monitor. Code between two synchronisation operations is executed atomically; >3 threads and >bound preemptions are not explored.",
     "stateless model checking of the implementation (controlled scheduler, preemption-bounded DFS over schedules)", "DESIGN.md §C01")
 
@@ -21,7 +21,7 @@ chk("C12",
     "Trusted: harness rank model (expiry / last served instant / serve count). Heap and Sys limits are configured at a value that can never be exceeded (they must not cause eviction); exceeding them is only reachable through EvictionNeeded (runtime.ReadMemStats is not seamed).",
     "exhaustive enumeration of a finite configuration x history table on the implementation", "DESIGN.md §C12")
 chk("C13",
-    "All ordered entry sequences up to the bound over the key-length x value-shape x expiry alphabet, with the dump order forced (shard placement for ShardedMap, every Range permutation for SyncMap through the sync.Map shim), for every backend pairing, 3-hop relays and a 300-entry cache; entries are written through one scratch key buffer and the target is compared with the entries WRITTEN; value types are registered through a variadic GobRegister call that repeats a known type.",
+    "All ordered entry sequences up to the bound over the key-length x value-shape x expiry alphabet, with the dump order forced (shard placement for ShardedMap, every Range permutation for SyncMap through the sync.Map shim), for every backend pairing, 3-hop relays and a 300-entry cache; entries are written through one scratch key buffer and the target is compared with the entries WRITTEN; value types are registered through a variadic GobRegister call that repeats a known type; caches with default, LRU and LFU eviction configuration.",
     "Trusted: encoding/gob round-trips the chosen value alphabet (verified by the SM->SM cells themselves). Entry sequences longer than the bound are represented only by the 300-entry case.",
     "exhaustive enumeration of bounded input sequences in every iteration order on the implementation", "DESIGN.md §C13")
 
@@ -40,11 +40,11 @@ chk("C04",
     "stateless model checking of the implementation with fault enumeration (preemption- and deviation-bounded DFS, deadlock detection)", "DESIGN.md §C04")
 
 chk("C05",
-    "(a,c) exhaustive schedule enumeration of SyncRead bursts (2-3 threads) on the real code with a builder-invocation counter as oracle; (b) exhaustive enumeration of all operation sequences up to the bound over Get(ok)/Get(fail) (plain, under a cancelled caller context, under a caller TTL)/clock advances around the failure window/ExpireAll, for three FailedUpdateTTL settings and the jitter answer at both extremes, under the virtual clock.",
+    "(a,c) exhaustive schedule enumeration of SyncRead bursts (2-3 threads) on the real code with a builder-invocation counter as oracle; (b) exhaustive enumeration of all operation sequences up to the bound over Get(ok)/Get(fail) (plain, under a cancelled caller context, under a caller TTL, of a second key)/clock advances around the failure window/ExpireAll/cleanup cycles of the internal failure cache, for three FailedUpdateTTL settings and the jitter answer at both extremes, under the virtual clock.",
     "Trusted: virtual clock/rand seams. Bursts happen at one virtual instant; bounds as C01.",
     "stateless model checking of the implementation (schedules) + exhaustive bounded operation-sequence enumeration", "DESIGN.md §C05")
 chk("C06",
-    "Complete enumeration of the caller-TTL x builder-WithTTL-behaviour x path (cold, sync/background update incl. unchanged value under ObserveMutability, waiter, SkipRead on every entry state with and without a cached failure) x cancellation/deadline grid on the three front-ends, each case run under the scheduler with all schedules; a recording backend wrapper and the builder observe the TTL of every store and the build context.",
+    "Complete enumeration of the caller-TTL x builder-WithTTL-behaviour x path (cold, sync/background update incl. unchanged value under ObserveMutability and nested builder TTL scopes, waiter, SkipRead on every entry state with and without a cached failure) x cancellation/deadline grid on the three front-ends, each case run under the scheduler with all schedules; a recording backend wrapper and the builder observe the TTL of every store and the build context.",
     "Trusted: recording wrapper; 'smallest non-zero' read over signed durations. TTL values outside the grid are not explored.",
     "exhaustive enumeration of a finite input/configuration table + stateless model checking of each case", "DESIGN.md §C06")
 
@@ -53,12 +53,12 @@ chk("C15",
     "Trusted: harness deleter wrappers; Go map iteration order is owned through the vinst map-range rewrite (sorted cursor). Unsynchronised memory access is left to C16.",
     "exhaustive input and fault-position enumeration + stateless model checking of the implementation", "DESIGN.md §C15")
 chk("C17",
-    "(seq) explicit-state BFS over Invalidate (also with a panicking callback recovered by the caller) / clock-advance / Callbacks=nil sequences against the acceptance model, every path under the scheduler (a call that never returns is a detected deadlock); (conc) exhaustive schedule enumeration of 2-3 Invalidate callers plus a clock thread, with callbacks that contain a scheduling point so that overlap would be observable.",
+    "(seq) explicit-state BFS over Invalidate (also with a panicking callback recovered by the caller) / clock-advance / Callbacks=nil sequences against the acceptance model, every path under the scheduler (a call that never returns is a detected deadlock), the Invalidator's private timestamp being part of the state key; (conc) exhaustive schedule enumeration of 2-3 Invalidate callers plus a clock thread, with callbacks that contain a scheduling point so that overlap would be observable.",
     "Trusted: virtual clock; attribution of callbacks to calls through a context value.",
     "explicit-state BFS + stateless model checking of the implementation (preemption-bounded / HB-cached DFS)", "DESIGN.md §C17")
 
 chk("C18",
-    "(backends) explicit-state BFS over C07's operation alphabet with a recording StatsTracker, comparing metric totals with reference-model-derived counts after every transition; (Failover) the complete lone-Get decision table, the same table with a backend call failing at every position, and concurrent 2-3 thread workloads on two keys (incl. SkipRead) under the scheduler, comparing totals at quiescence with the harness's own operation log in every explored schedule.",
+    "(backends) explicit-state BFS over C07's operation alphabet with a recording StatsTracker, comparing metric totals with reference-model-derived counts after every transition; (Failover) the complete lone-Get decision table, the same table with a backend call failing at every position, cleanup cycles that delete expired entries and evict, and concurrent 2-3 thread workloads on two keys (incl. SkipRead) under the scheduler, comparing totals at quiescence with the harness's own operation log in every explored schedule.",
     "Trusted: harness operation log (pass-through backend wrapper, builder counters). Reads of Failover's internal failure cache are not observable and not accounted.",
     "explicit-state BFS + stateless model checking of the implementation (preemption-bounded DFS)", "DESIGN.md §C18")
 
@@ -68,12 +68,12 @@ chk("C09",
     "constructed adversarial inputs + explicit-state BFS + stateless model checking of the implementation", "DESIGN.md §C09")
 
 chk("C08",
-    "Exhaustive enumeration of schedules (preemption bound 2 with happens-before caching; thorough: unbounded) of all small client programs (2-3 threads x 1-2 Write/Read/Delete operations on two same-shard keys, and once more on two keys with the SAME xxhash64 against a slot model) plus one batch thread (ExpireAll, DeleteAll, delete-expired, eviction under three strategies, Walk) on the three real backends (finite and Unlimited TimeToLive); every per-key invocation/response history is checked with porcupine v1.3.0 against a nondeterministic register-with-expiry model in which a batch call is one pseudo-operation per key.",
+    "Exhaustive enumeration of schedules (preemption bound 2 with happens-before caching; thorough: unbounded) of all small client programs (2-3 threads x 1-2 Write/Read/Delete operations on two same-shard keys, and once more on two keys with the SAME xxhash64 against a slot model) plus one batch thread (ExpireAll, DeleteAll, delete-expired, eviction under three strategies, Walk, Walk whose callback gives up) on the three real backends (finite and Unlimited TimeToLive); every per-key invocation/response history is checked with porcupine v1.3.0 against a nondeterministic register-with-expiry model in which a batch call is one pseudo-operation per key.",
     "Trusted: porcupine; the register model. Abstraction: the instrumented build has 4 instead of 128 shards (vinst -const shards=4) so that batch operations are short enough to interleave exhaustively. Exhaustive below 3(+1) threads x 2 operations only.",
     "stateless model checking of the implementation (DFS over schedules, HB caching) + linearizability checking of every explored history", "DESIGN.md §C08")
 
 chk("C14",
-    "Complete enumeration of cache-name assignments (names that need URL escaping, the empty name) x entry sets x backend pairings x request perturbations through an in-process RoundTripper, a body cut / body read failure injected at EVERY byte offset of the exported stream, and every type-registration sequence up to length 4 evaluated in a fresh process each; importer contents are compared with the exporter's.",
+    "Complete enumeration of cache-name assignments (names that need URL escaping, the empty name) x entry sets x backend pairings x request perturbations x logger capability {none, Error-only, all levels} through an in-process RoundTripper, a body cut / body read failure injected at EVERY byte offset of the exported stream, and every type-registration sequence up to length 4 evaluated in a fresh process each; importer contents are compared with the exporter's.",
     "Trusted: net/http's Handler/Request plumbing, encoding/gob. Entry sets beyond two entries per cache and type pools beyond the four listed types are not explored.",
     "exhaustive input and fault-position enumeration on the implementation (fresh-process enumeration for the hash)", "DESIGN.md §C14")
 
